@@ -347,7 +347,11 @@ class Nodes:
         Returns: (ScalarNode) The new node
         """
         minus_sign = "-" if value < 0.0 else None
-        strval = format(value, '.15f').rstrip('0').rstrip('.')
+        strval = format(value, '.15f').rstrip('0')
+        if strval.endswith('.'):
+            # Keep one fractional digit; without it, ruamel.yaml receives a
+            # zero precision and emits a different (or an unloadable) number
+            strval += '0'
         precision = 0
         width = len(strval)
         lastdot = strval.rfind(".")
